@@ -41,3 +41,19 @@ Fixpoint bad_indices (i : Z) (ks : list case) : list Z :=
   end.
 
 Definition model_out (k : case) := let '(c, ops, _, _) := k in snd (run c (init c (stale c)) ops).
+
+(* ---- segment walk probes (C02, C14) ---- *)
+From Verif Require Import Stft.Walk.
+Definition walk_case := (Z * Z * Z * list Z)%type.   (* D, start, len, observed half indices *)
+Definition walk_ok (k : walk_case) : bool :=
+  let '(D, start, ln, obs) := k in
+  match walk D start ln with
+  | Some l => list_eqb Z.eqb (map fst l) obs
+  | None => false
+  end.
+Fixpoint walk_bad (i : Z) (ks : list walk_case) : list Z :=
+  match ks with
+  | [] => []
+  | k :: rest => if walk_ok k then walk_bad (i + 1) rest else i :: walk_bad (i + 1) rest
+  end.
+Definition walk_model (k : walk_case) := let '(D, start, ln, _) := k in walk D start ln.
